@@ -19,6 +19,7 @@ CONSTANTS
   InitBals,    \* set of initial balance functions [Addr -> Nat]
   LegacyPairs, \* pairs that may carry a grant in a legacy start state
   Legacy,      \* set of BOOLEAN: start states with a pre-0.14 allowance table
+  Marketing,   \* set of BOOLEAN: instantiate with marketing info (marketing address a1)
   GenMode,     \* TRUE: keep the schedule, include failing calls
   GenDepth,    \* schedule length at which a behaviour is printed (Gen mode)
   GenFail,     \* Gen mode: failing calls are part of the alphabet (random walks); FALSE for the sampled BFS
@@ -36,7 +37,7 @@ ExpArgs == Exps \cup {[k |-> "keep", v |-> 0]}
 LegacyGrants == { <<>> } \cup { <<[o |-> p[1], s |-> p[2], amt |-> 2, exp |-> Never]>> : p \in LegacyPairs }
 
 Init ==
-  \E b \in InitBals, m \in Minters, c \in Caps, lg \in Legacy :
+  \E b \in InitBals, m \in Minters, c \in Caps, lg \in Legacy, mkOn \in Marketing :
   \E g \in (IF lg THEN LegacyGrants ELSE {<<>>}) :
     LET tot == SumOver(Addr, b) IN
     /\ (m = "none" => c = -1)
@@ -50,8 +51,10 @@ Init ==
     /\ credit = [p \in Pairs |-> allow[p].amt]
     /\ migrated = ~lg
     /\ now = [h |-> 0, t |-> 0] /\ out = <<>> /\ maxAmt = MaxAmtC
+    /\ mk = IF mkOn THEN [NoMk EXCEPT !.project = "proj0", !.marketing = "a1"] ELSE NoMk
     /\ cfgv = [scale |-> 0, init |-> SetToSeq({[a |-> x, amt |-> b[x]] : x \in {y \in Addr : b[y] > 0}}), minter |-> m, cap |-> c,
-               legacy |-> lg, legacyGrants |-> g]
+               legacy |-> lg, legacyGrants |-> g,
+               marketing |-> [addr |-> IF mkOn THEN "a1" ELSE "none", logo |-> "none"], mkt |-> [on |-> mkOn, addr |-> "a1", logo |-> "none"]]
     /\ ev = [act |-> "reset", by |-> "env", ok |-> TRUE]
     /\ sched = <<>>
 
@@ -62,6 +65,7 @@ Call(e, action) ==
      /\ ev' = [e EXCEPT !.ok = TRUE]
      /\ UNCHANGED <<now, maxAmt, cfgv>>
      /\ migrated' = migrated
+     /\ IF e.act \in MkActs THEN TRUE ELSE mk' = mk
      /\ sched' = IF GenMode THEN Append(sched, e) ELSE sched
   \/ /\ GenMode /\ GenFail /\ ~ENABLED action
      /\ ev' = [e EXCEPT !.ok = FALSE]
@@ -90,6 +94,10 @@ AIncrease == Ready /\ \E p \in AllowPairs, a \in Amts, x \in ExpArgs :
        Call(Ev("increase_allowance", p[1], [spender |-> p[2], amt |-> a, exp |-> x]), DoIncrease(p[1], p[2], a, x))
 ADecrease == Ready /\ \E p \in AllowPairs, a \in Amts, x \in ExpArgs :
        Call(Ev("decrease_allowance", p[1], [spender |-> p[2], amt |-> a, exp |-> x]), DoDecrease(p[1], p[2], a, x))
+AUpdateMarketing == Ready /\ \E s \in Users, pr \in {"keep", "clear", "projA"}, ma \in {"keep", "clear", "a2"} :
+       Call(Ev("update_marketing", s, [project |-> pr, description |-> "keep", marketing |-> ma]), DoUpdateMarketing(s, pr, "keep", ma))
+AUploadLogo == Ready /\ \E s \in Users, k \in {"url", "png", "svg", "badpng", "bigpng"} :
+       Call(Ev("upload_logo", s, [kind |-> k]), DoUploadLogo(s, k))
 AUpdateMinter == Ready /\ \E s \in Users, n \in Users \cup {"none"} :
        Call(Ev("update_minter", s, [new |-> n]), DoUpdateMinter(s, n))
 
@@ -97,19 +105,19 @@ Advance ==
   /\ Ready /\ now.h < MaxH
   /\ now' = [h |-> now.h + 1, t |-> now.t + 1]
   /\ ev' = Ev("advance", "env", [dh |-> 1, dt |-> 1])
-  /\ UNCHANGED <<accts, bal, supply, mint, allow, ov, sv, maxAmt, credit, migrated, cfgv>>
+  /\ UNCHANGED <<accts, bal, supply, mint, allow, ov, sv, maxAmt, credit, migrated, mk, cfgv>>
   /\ out' = <<>>
   /\ sched' = IF GenMode THEN Append(sched, ev') ELSE sched
 
 Migrate ==
-  /\ ~migrated /\ DoMigrate /\ UNCHANGED <<now, maxAmt, cfgv>>
+  /\ ~migrated /\ DoMigrate /\ UNCHANGED <<now, maxAmt, mk, cfgv>>
   /\ ev' = Ev("migrate", "creator", [x |-> 0])
   /\ sched' = sched        \* the harness always migrates a legacy token first
 
 \* a legacy token is migrated before anything else happens (code and storage are swapped atomically)
 Next == \/ Migrate \/ Advance
         \/ ATransfer \/ ASend \/ ABurn \/ AMint \/ ATransferFrom \/ ABurnFrom \/ ASendFrom
-        \/ AIncrease \/ ADecrease \/ AUpdateMinter
+        \/ AIncrease \/ ADecrease \/ AUpdateMinter \/ AUpdateMarketing \/ AUploadLogo
 
 Spec == Init /\ [][Next]_mcvars
 
@@ -119,6 +127,7 @@ A_C02 == [][C02_DebitAuthorised /\ C02_DrawGuard /\ C02_DrawExact /\ C02_MoveExa
             /\ C02_IncreaseExact /\ C02_DecreaseSaturating /\ C02_ReceiveNotified /\ C02_FailRollsBack]_vars
 A_C13 == [][C13_MintByMinter /\ C13_MinterWriters /\ C13_HandOverExact /\ C13_RenounceForever]_vars
 A_C19 == [][C19_MigrateKeeps /\ C19_OnlyMigrateMigrates]_vars
+A_X20 == [][X20_MarketingWriters /\ X20_UpdateMarketingExact /\ X20_UploadLogoExact /\ X20_TokenUntouched]_vars
 
 TypeOK ==
   /\ accts \subseteq Addr
@@ -136,6 +145,7 @@ MC_AllowPairs3 == {<<"a1", "a2">>, <<"a2", "a1">>, <<"a1", "k1">>}
 MC_AllowPairsAll == {p \in Pairs : p[1] # p[2]}
 MC_InitBals == {b \in [Addr -> 0..2] : SumOver(Addr, b) <= 3 /\ b["k1"] = 0}
 MC_InitBalsQ == {[a \in Addr |-> IF a = "a1" THEN 2 ELSE 0], [a \in Addr |-> IF a = "k1" THEN 0 ELSE 1], [a \in Addr |-> 0]}
+MC_InitBalsOne == {[a \in Addr |-> IF a = "a1" THEN 2 ELSE 0]}
 MC_AllowPairs1 == {<<"a1", "a2">>}
 MC_Exps2 == {Never, [k |-> "h", v |-> 1]}
 MC_CapsQ == {-1, 3}
